@@ -46,12 +46,16 @@ def visit(acc, blk, vec, asg, idx):
         acc["samples"].append({"vector": vec, "scores": got})
 
 
+def blocks(tier):
+    return spaces.v3_blocks(tier)
+
+
 def run(ctx, res):
     n_off = official.validate("3", model)
     ctx.log("reference model reproduces %d official v3 vectors" % n_off)
-    blocks = spaces.v3_blocks(ctx.tier)
-    tot = sweep.merge(product.run(ctx, blocks, visit, sweep.new_acc))
-    sweep.fill(res, ctx, tot, blocks,
+    blocks_ = blocks(ctx.tier)
+    tot = sweep.merge(product.run(ctx, blocks_, visit, sweep.new_acc))
+    sweep.fill(res, ctx, tot, blocks_,
                "every point of the listed product blocks over the v3 metric tables (both minor "
                "versions) is constructed with the real CVSS3 class and scores() compared with the "
                "exact-rational model; 'inherit' = modified metrics absent so base values are "
@@ -76,3 +80,7 @@ def replay(case):
         raise core.HarnessError("replay input is not a valid v3 vector")
     why, obs, exp = judge(fam, vec, dict(got))
     return bool(why), why or "scores %r as the specification's equations" % (obs,)
+
+
+def replay_task(case):
+    return product.replay_task(blocks(case.get("tier") or "quick"), visit, sweep.new_acc, case)
